@@ -679,6 +679,43 @@ pub fn late_diagnostic_projects() -> Vec<Project> {
     v
 }
 
+// ------------------------------------------------------------------------------------------------
+// the entry point
+//
+// `link_cores` decides on its own whether the project has an entry point ("Main package missing main function"); the
+// whole-program path has no such test and leaves it to the back end, which renames `main` (and any `…::main`) to
+// `main0` and emits `func main() { main0() }`.  The catalogue varies where `main` is and what it looks like.
+
+/// (name, files)
+pub fn entry_point_projects() -> Vec<Project> {
+    let hello = "fn main() {\n    string_println(\"m\");\n}\n";
+    let helper = "fn helper() -> int32 {\n    1\n}\n";
+    let lib_ok = "package Lib\n\nfn ok() -> int32 {\n    1\n}\n";
+    let forms: Vec<(&str, Vec<(&str, String)>)> = vec![
+        ("control-main-in-entry-file", vec![("main.gom", format!("package Main\n\n{hello}"))]),
+        ("main-in-sibling-file", vec![("main.gom", format!("package Main\n\n{helper}")), ("z.gom", format!("package Main\n\n{hello}"))]),
+        ("no-main", vec![("main.gom", format!("package Main\n\n{helper}"))]),
+        ("no-main-no-items", vec![("main.gom", "package Main\n".to_string())]),
+        ("no-main-two-files", vec![("main.gom", format!("package Main\n\n{helper}")), ("z.gom", "package Main\n\nfn other() -> int32 {\n    helper()\n}\n".to_string())]),
+        ("no-main-with-library", vec![("main.gom", format!("package Main\nimport Lib\n\nfn helper() -> int32 {{\n    Lib::ok()\n}}\n")), ("Lib/lib.gom", lib_ok.to_string())]),
+        ("main-only-in-library", vec![("main.gom", format!("package Main\nimport Lib\n\nfn helper() -> int32 {{\n    Lib::ok()\n}}\n")), ("Lib/lib.gom", format!("{lib_ok}\n{hello}"))]),
+        ("main-only-as-method", vec![("main.gom", "package Main\n\nstruct App {\n    v: int32,\n}\n\nimpl App {\n    fn main(self: App) -> int32 {\n        self.v\n    }\n}\n".to_string())]),
+        ("main-only-as-extern", vec![("main.gom", "package Main\n\nextern \"go\" \"os\" \"Getpid\" main() -> int32\n".to_string())]),
+        ("main-with-parameter", vec![("main.gom", "package Main\n\nfn main(x: int32) {\n    string_println(int32_to_string(x));\n}\n".to_string())]),
+        ("main-with-result", vec![("main.gom", "package Main\n\nfn main() -> int32 {\n    1\n}\n".to_string())]),
+        ("main-generic", vec![("main.gom", "package Main\n\nfn main[T]() {\n    string_println(\"g\");\n}\n".to_string())]),
+    ];
+    forms
+        .into_iter()
+        .map(|(name, files)| Project {
+            id: format!("entry-{}", name),
+            kind: "entry-point",
+            files: files.into_iter().map(|(f, c)| (f.to_string(), c)).collect(),
+            tags: vec![format!("entry={}", name)],
+        })
+        .collect()
+}
+
 /// witness projects kept under corpus/C14/<name>/ (a directory per project)
 pub fn corpus_witnesses() -> Vec<Project> {
     let mut v = Vec::new();
@@ -1024,6 +1061,7 @@ pub fn main(args: &util::Args) {
     projects.extend(import_rule_projects());
     projects.extend(early_diagnostic_projects());
     projects.extend(late_diagnostic_projects());
+    projects.extend(entry_point_projects());
     projects.extend(lookup_visibility_projects());
     // the package worlds of C16 whose directories are all in order (chains, diamonds, DAGs, impl triples): qualified
     // and type-directed references to own / imported / transitively reachable / unrelated packages, trait and inherent
